@@ -1506,6 +1506,7 @@ class Model(Object):
             interface.Constraint.clone(c, model=new_model.solver)
             for c in right.constraints
             if c.name not in new_model.constraints
+            and c.name not in right.metabolites
         ]
         new_model.add_cons_vars(new_cons, sloppy=True)
         new_model.objective = dict(
